@@ -24,16 +24,19 @@ fn c04_overlaps_key() {
 }
 
 fn put32(v: &mut Vec<u8>, big: bool, x: u32) {
+    // pushes, not extend_from_slice: a memcpy into the buffer makes every byte of it opaque to constant propagation
     let b = if big { x.to_be_bytes() } else { x.to_le_bytes() };
-    v.extend_from_slice(&b);
+    v.push(b[0]); v.push(b[1]); v.push(b[2]); v.push(b[3]);
 }
 fn put64(v: &mut Vec<u8>, big: bool, x: u64) {
+    // pushes, not extend_from_slice: a memcpy into the buffer makes every byte of it opaque to constant propagation
     let b = if big { x.to_be_bytes() } else { x.to_le_bytes() };
-    v.extend_from_slice(&b);
+    v.push(b[0]); v.push(b[1]); v.push(b[2]); v.push(b[3]); v.push(b[4]); v.push(b[5]); v.push(b[6]); v.push(b[7]);
 }
 fn put16(v: &mut Vec<u8>, big: bool, x: u16) {
+    // pushes, not extend_from_slice: a memcpy into the buffer makes every byte of it opaque to constant propagation
     let b = if big { x.to_be_bytes() } else { x.to_le_bytes() };
-    v.extend_from_slice(&b);
+    v.push(b[0]); v.push(b[1]);
 }
 fn endian(big: bool) -> Endianness {
     if big { Endianness::Big } else { Endianness::Little }
@@ -242,56 +245,146 @@ fn put_nonleaf(v: &mut Vec<u8>, big: bool, c1: u32, s: u32, c2: u32, e: u32, chi
     put32(v, big, c1); put32(v, big, s); put32(v, big, c2); put32(v, big, e); put64(v, big, child);
 }
 
-// @harness c05_search_handbuilt_2level
-// @props C05 C10 C04
-// @tier off
+// @harness c05_search_2level_first_leaf
+// @fs 16384
+// @props C05 C10 C04 C03
+// @tier quick
 // @kind core
 // @timeout 2400
-// @mem 48
-// @functions bbiread::{search_cir_tree_inner, CirTreeBlockSearchIter::next, read_node, cir_tree_leaf_items, cir_tree_non_leaf_items, nodes_overlapping, overlaps} over std::io::Cursor<Vec<u8>> (the blanket BBIFileRead impl)
-// @bounds an independently encoded 2-level index: root with 2 children, leaves with 2 and 1 blocks, nodes placed out of order (second leaf, then root, then first leaf; root NOT first), little-endian (big-endian in the thorough tier); block spans full width on chromosomes 0/1; child spans = any spans that contain their leaf's blocks; arbitrary query
-// @stubs alloc::fmt::format -> empty; Vec::push -> within capacity (asserted); SmallVec::push -> within inline capacity (asserted)
+// @mem 24
+// @sub src/bbi/bbiread.rs ::: use bytes::{Buf, BytesMut}; ::: use crate::verif_support::bbuf::BytesMut;
+// @functions bbiread::{search_cir_tree_inner, CirTreeBlockSearchIter::next, read_node, cir_tree_leaf_items, cir_tree_non_leaf_items, nodes_overlapping, overlaps} over an in-memory file (ScriptedFile: byte-loop Read + Seek; its blocks_for_cir_tree_node is the blanket impl's body with the requested node offset asserted against the pre-order visit script, see the type's comment); bytes::BytesMut (node header) replaced by the model verif_support::bbuf
+// @bounds an independently encoded 2-level index: root with 2 children, leaves with 2 and 1 blocks, nodes placed out of order in the file (second leaf, then root, then first leaf; root NOT first), little-endian. The recorded child spans and the query are CONCRETE (which children are visited is then decided during symbolic execution - with a symbolic descent the node offset, hence every count and size read from the file, becomes symbolic: 4 M steps, out of memory); the three block spans are symbolic inside their child's span. This instance: query chr0:[10,20], only the first leaf overlaps
+// @stubs alloc::fmt::format -> empty; SmallVec::push -> within inline capacity (asserted); Vec::reserve -> the empty result vector's first growth allocates 4 slots, any other growth is a failed check
 // @assumes well-formed index: each recorded child span contains the blocks beneath it
-// @cut deeper trees and wider nodes (SmallVec cost, see c04_nodes_overlapping_leaf); zlib is not involved in the index
-// @witness cover: a query that descends into only one leaf; a query that hits all three blocks
+// @cut symbolic descent decisions (covered per node by c04_nodes_overlapping_*), deeper trees and wider nodes; zlib is not involved in the index
+// @witness cover: exactly one block returned; both blocks of the leaf returned
 #[kani::proof]
-#[kani::unwind(4)]
+#[kani::unwind(12)]
 #[kani::stub(alloc::fmt::format, crate::verif_support::fake_format)]
-#[kani::stub(alloc::vec::Vec::push, crate::verif_support::push_within_capacity)]
+#[kani::stub(alloc::vec::Vec::reserve, crate::verif_support::reserve_first_four)]
 #[kani::stub(SmallVec::push, crate::verif_support::smallvec_push_inline)]
-fn c05_search_handbuilt_2level() {
-    search_handbuilt(false);
+fn c05_search_2level_first_leaf() {
+    search_handbuilt(false, 0);
 }
 
-// @harness c05_search_be_handbuilt_2level
+// @harness c05_search_2level_second_leaf
+// @fs 16384
+// @props C05 C10 C04
+// @tier quick
+// @kind core
+// @timeout 2400
+// @mem 24
+// @sub src/bbi/bbiread.rs ::: use bytes::{Buf, BytesMut}; ::: use crate::verif_support::bbuf::BytesMut;
+// @functions as c05_search_2level_first_leaf
+// @bounds as c05_search_2level_first_leaf; this instance: query chr1:[10,20], only the second leaf (placed FIRST in the file) overlaps
+// @stubs as c05_search_2level_first_leaf
+// @assumes as c05_search_2level_first_leaf
+// @witness cover: the block is returned; it is not
+#[kani::proof]
+#[kani::unwind(12)]
+#[kani::stub(alloc::fmt::format, crate::verif_support::fake_format)]
+#[kani::stub(alloc::vec::Vec::reserve, crate::verif_support::reserve_first_four)]
+#[kani::stub(SmallVec::push, crate::verif_support::smallvec_push_inline)]
+fn c05_search_2level_second_leaf() {
+    search_handbuilt(false, 1);
+}
+
+// @harness c05_search_2level_both_leaves
+// @fs 16384
+// @props C05 C10 C04
+// @tier quick
+// @kind core
+// @timeout 2400
+// @mem 24
+// @sub src/bbi/bbiread.rs ::: use bytes::{Buf, BytesMut}; ::: use crate::verif_support::bbuf::BytesMut;
+// @functions as c05_search_2level_first_leaf
+// @bounds as c05_search_2level_first_leaf; this instance: the first child spans chr0:0 .. chr1:15, the second chr1:12 .. chr1:50, query chr1:[10,20]: both leaves are visited
+// @stubs as c05_search_2level_first_leaf
+// @assumes as c05_search_2level_first_leaf
+// @witness cover: blocks from both leaves returned, in file order of the index
+#[kani::proof]
+#[kani::unwind(12)]
+#[kani::stub(alloc::fmt::format, crate::verif_support::fake_format)]
+#[kani::stub(alloc::vec::Vec::reserve, crate::verif_support::reserve_first_four)]
+#[kani::stub(SmallVec::push, crate::verif_support::smallvec_push_inline)]
+fn c05_search_2level_both_leaves() {
+    search_handbuilt(false, 2);
+}
+
+// @harness c05_search_be_2level_both_leaves
+// @fs 16384
 // @props C05 C10
-// @tier off
+// @tier quick
 // @kind stretch
 // @timeout 2400
-// @mem 32
-// @functions as c05_search_handbuilt_2level, big-endian file
-// @bounds as c05_search_handbuilt_2level
-// @stubs as c05_search_handbuilt_2level
-// @assumes as c05_search_handbuilt_2level
+// @mem 24
+// @sub src/bbi/bbiread.rs ::: use bytes::{Buf, BytesMut}; ::: use crate::verif_support::bbuf::BytesMut;
+// @functions as c05_search_2level_both_leaves, big-endian file
+// @bounds as c05_search_2level_both_leaves
+// @stubs as c05_search_2level_first_leaf
+// @assumes as c05_search_2level_first_leaf
+// @witness cover: blocks from both leaves returned
 #[kani::proof]
-#[kani::unwind(4)]
+#[kani::unwind(12)]
 #[kani::stub(alloc::fmt::format, crate::verif_support::fake_format)]
-#[kani::stub(alloc::vec::Vec::push, crate::verif_support::push_within_capacity)]
+#[kani::stub(alloc::vec::Vec::reserve, crate::verif_support::reserve_first_four)]
 #[kani::stub(SmallVec::push, crate::verif_support::smallvec_push_inline)]
-fn c05_search_be_handbuilt_2level() {
-    search_handbuilt(true);
+fn c05_search_be_2level_both_leaves() {
+    search_handbuilt(true, 2);
 }
 
-fn search_handbuilt(big: bool) {
-    // three blocks, in file order A0, A1, B0
-    let (ca0, sa0, ea0): (u32, u32, u32) = (kani::any(), kani::any(), kani::any());
-    let (ca1, sa1, ea1): (u32, u32, u32) = (kani::any(), kani::any(), kani::any());
-    let (cb0, sb0, eb0): (u32, u32, u32) = (kani::any(), kani::any(), kani::any());
-    kani::assume(ca0 <= 1 && ca1 <= 1 && cb0 <= 1);
+/// In-memory file for the whole-index search harnesses. `blocks_for_cir_tree_node` is the blanket impl's body
+/// (read_node + nodes_overlapping, both real) with one addition: the node offset the search asks for is
+/// ASSERTED equal to the next entry of a visit script and the script's constant is used for the seek. Reason: the
+/// offset travels through `io::Result<(SmallVec, SmallVec)>`, a niche-encoded enum that Kani lowers to a C union
+/// nested around SmallVec's own unions; CBMC does not constant-propagate through that, and a seek to an opaque
+/// offset makes every count and size read from the file symbolic (4 M steps, out of memory). The assertion keeps
+/// this sound: the solver proves the requested offset is the scripted one. The script is the pre-order visit of
+/// the overlapping children (what the search does today); it is not part of the property, so the assertion is
+/// compiled out of the native replay - a different but correct traversal order then shows up as
+/// "not reproduced" (inconclusive), not as a violation.
+pub struct ScriptedFile {
+    pub cur: crate::verif_support::LoopCursor,
+    pub script: [u64; 4],
+    pub k: usize,
+}
+impl BBIFileRead for ScriptedFile {
+    type Reader = crate::verif_support::LoopCursor;
+    fn get_block_data(&mut self, info: &BBIFileInfo, block: &Block) -> io::Result<Vec<u8>> {
+        read_block_data(info, &mut self.cur, block)
+    }
+    fn blocks_for_cir_tree_node(&mut self, endianness: Endianness, node_offset: u64, chrom_ix: u32, start: u32, end: u32) -> io::Result<(SmallVec<[u64; 4]>, SmallVec<[Block; 4]>)> {
+        #[cfg(not(verif_replay))]
+        let off = {
+            assert!(self.k < 4, "[script] more nodes visited than the index has on the query's path");
+            let expected = self.script[self.k];
+            assert!(node_offset == expected, "[script] the search asked for a node offset other than the next one of the pre-order visit");
+            expected
+        };
+        #[cfg(verif_replay)]
+        let off = node_offset;
+        self.k += 1;
+        let iter = match read_node(&mut self.cur, off, endianness) {
+            Ok(d) => d,
+            Err(e) => return Err(e),
+        };
+        Ok(nodes_overlapping(iter, chrom_ix, start, end))
+    }
+    fn raw_reader(&mut self) -> &mut Self::Reader {
+        &mut self.cur
+    }
+}
+
+fn search_handbuilt(big: bool, mode: u8) {
+    // concrete: block chromosomes, recorded child spans, query (see @bounds); symbolic: the block spans
+    // (A: first child with blocks A0, A1; B: second child with block B0)
+    let (ca0, ca1, cb0): (u32, u32, u32) = if mode == 2 { (0, 1, 1) } else { (0, 0, 1) };
+    let (a1c, a1s, a2c, a2e): (u32, u32, u32, u32) = if mode == 2 { (0, 0, 1, 15) } else { (0, 0, 0, 100) };
+    let (b1c, b1s, b2c, b2e): (u32, u32, u32, u32) = if mode == 2 { (1, 12, 1, 50) } else { (1, 5, 1, 50) };
+    let (q, qs, qe): (u32, u32, u32) = if mode == 0 { (0, 10, 20) } else { (1, 10, 20) };
+    let (sa0, ea0, sa1, ea1, sb0, eb0): (u32, u32, u32, u32, u32, u32) = (kani::any(), kani::any(), kani::any(), kani::any(), kani::any(), kani::any());
     kani::assume(sa0 <= ea0 && sa1 <= ea1 && sb0 <= eb0);
-    // recorded spans of the two children: arbitrary, but containing what is beneath them
-    let (a1c, a1s, a2c, a2e): (u32, u32, u32, u32) = (kani::any(), kani::any(), kani::any(), kani::any());
-    let (b1c, b1s, b2c, b2e): (u32, u32, u32, u32) = (kani::any(), kani::any(), kani::any(), kani::any());
     kani::assume(key(a1c, a1s) <= key(ca0, sa0) && key(a1c, a1s) <= key(ca1, sa1));
     kani::assume(key(a2c, a2e) >= key(ca0, ea0) && key(a2c, a2e) >= key(ca1, ea1));
     kani::assume(key(b1c, b1s) <= key(cb0, sb0) && key(b2c, b2e) >= key(cb0, eb0));
@@ -305,10 +398,12 @@ fn search_handbuilt(big: bool) {
     d.push(1); d.push(0); put16(&mut d, big, 2);
     put_leaf(&mut d, big, ca0, sa0, ca0, ea0, 1000, 10);
     put_leaf(&mut d, big, ca1, sa1, ca1, ea1, 2000, 20);
-    let mut cur = std::io::Cursor::new(d);
-    let (q, qs, qe): (u32, u32, u32) = (kani::any(), kani::any(), kani::any());
-    kani::assume(q <= 1 && qs <= qe);
+    // pre-order visit of the overlapping children: root, then leaf A (offset 88) and/or leaf B (offset 0)
+    let script: [u64; 4] = if mode == 0 { [36, 88, 7, 7] } else if mode == 1 { [36, 0, 7, 7] } else { [36, 88, 0, 7] };
+    let visits = if mode == 2 { 3 } else { 2 };
+    let mut cur = ScriptedFile { cur: crate::verif_support::LoopCursor::new(d), script, k: 0 };
     let r = search_cir_tree_inner(endian(big), &mut cur, 36, q, qs, qe);
+    assert!(cur.k == visits, "[visits] the search did not visit exactly the nodes whose recorded span overlaps the query");
     let (rok, got) = match r {
         Ok(v) => (true, v),
         Err(e) => { core::mem::forget(e); (false, Vec::new()) }
@@ -322,36 +417,59 @@ fn search_handbuilt(big: bool) {
     if h0 { assert!(got[k].offset == 1000 && got[k].size == 10, "[order0] wrong block / order"); k += 1; }
     if h1 { assert!(got[k].offset == 2000 && got[k].size == 20, "[order1] wrong block / order"); k += 1; }
     if h2 { assert!(got[k].offset == 3000 && got[k].size == 30, "[order2] wrong block / order"); k += 1; }
-    let c2 = !h0 & !h1 & h2;
-    kani::cover!(c2, "only the second leaf is hit");
-    let c3 = h0 & h1 & h2;
-    kani::cover!(c3, "all three blocks hit");
+    let c1 = n == 1;
+    kani::cover!(c1, "exactly one block returned");
+    let c2 = if mode == 1 { n == 0 } else { n >= 2 };
+    kani::cover!(c2, "mode 0/2: at least two blocks returned; mode 1: none");
     core::mem::forget(got);
     core::mem::forget(cur);
 }
 
 // @harness c10_read_info_header
 // @props C10 C01 C02
-// @tier off
+// @tier quick
+// @sub src/bbi/bbiread.rs ::: use bytes::{Buf, BytesMut}; ::: use crate::verif_support::bbuf::BytesMut;
 // @kind core
 // @timeout 2400
 // @mem 24
-// @functions bbiread::read_info, read_zoom_headers, read_chrom_tree_block (leaf arm) over std::io::Cursor<Vec<u8>>
-// @bounds an independently encoded file prefix: 64-byte header (all fields symbolic, full width), little-endian (big-endian: c10_read_info_bigendian; with a symbolic byte order the key size read back from the file is no longer folded and buffer sizes become symbolic), either file type, 1 zoom directory entry, chromosome tree with one leaf of 2 chromosomes ("a", "bb"; ids and sizes symbolic)
-// @stubs alloc::fmt::format -> empty; Vec::push -> within capacity (asserted)
+// @functions bbiread::read_info, read_zoom_headers, read_chrom_tree_block (leaf arm) over an in-memory file (LoopCursor: byte-loop Read + Seek); bytes::BytesMut replaced by the model verif_support::bbuf (agreement: c02_bytes_model_agrees)
+// @bounds an independently encoded file prefix: 64-byte header (all fields symbolic, full width), little-endian (big-endian: c10_read_info_bigendian; with a symbolic byte order the key size read back from the file is no longer folded and buffer sizes become symbolic), bigBed (bigWig: c10_read_info_bigwig), 1 zoom directory entry, chromosome tree with one leaf of 2 chromosomes ("a", "bb"; ids and sizes symbolic)
+// @stubs alloc::fmt::format -> empty; core::str::from_utf8 -> trusting conversion (chromosome names are ASCII by construction; std's validation has an alignment-dependent fast path that is nondeterministic under CBMC)
 // @assumes well-formed file (magic, chromosome tree magic, val size 8)
 // @cut multi-level chromosome trees (c10_read_chrom_tree_2level), more zoom levels, data and index sections
-// @witness cover: bigBed; bigWig
+// @witness cover: a version other than 4
 #[kani::proof]
-#[kani::unwind(8)]
+#[kani::unwind(70)]
+#[kani::stub(std::str::from_utf8, crate::verif_support::str_from_utf8_trusting)]
 #[kani::stub(alloc::fmt::format, crate::verif_support::fake_format)]
 fn c10_read_info_header() {
-    read_info_header(false);
+    read_info_header(false, true);
+}
+
+// @harness c10_read_info_bigwig
+// @props C10 C01
+// @tier quick
+// @kind core
+// @timeout 2400
+// @mem 24
+// @sub src/bbi/bbiread.rs ::: use bytes::{Buf, BytesMut}; ::: use crate::verif_support::bbuf::BytesMut;
+// @functions as c10_read_info_header, for a little-endian bigWig file
+// @bounds as c10_read_info_header
+// @stubs as c10_read_info_header
+// @assumes well-formed file
+// @witness cover: a version other than 4
+#[kani::proof]
+#[kani::unwind(70)]
+#[kani::stub(std::str::from_utf8, crate::verif_support::str_from_utf8_trusting)]
+#[kani::stub(alloc::fmt::format, crate::verif_support::fake_format)]
+fn c10_read_info_bigwig() {
+    read_info_header(false, false);
 }
 
 // @harness c10_read_info_bigendian
 // @props C10
-// @tier off
+// @tier quick
+// @sub src/bbi/bbiread.rs ::: use bytes::{Buf, BytesMut}; ::: use crate::verif_support::bbuf::BytesMut;
 // @kind core
 // @timeout 2400
 // @mem 24
@@ -359,16 +477,18 @@ fn c10_read_info_header() {
 // @bounds as c10_read_info_header
 // @stubs alloc::fmt::format -> empty
 // @assumes well-formed file
-// @witness cover: bigBed and bigWig
+// @witness cover: a version other than 4
 #[kani::proof]
-#[kani::unwind(8)]
+#[kani::unwind(70)]
+#[kani::stub(std::str::from_utf8, crate::verif_support::str_from_utf8_trusting)]
 #[kani::stub(alloc::fmt::format, crate::verif_support::fake_format)]
 fn c10_read_info_bigendian() {
-    read_info_header(true);
+    read_info_header(true, false);
 }
 
-fn read_info_header(big: bool) {
-    let isbed: bool = kani::any();
+fn read_info_header(big: bool, isbed: bool) {
+    // file type and byte order are concrete per harness: a symbolic magic makes the decoded byte order an
+    // if-then-else, both decoding arms run, and the zoom count / key size read back become symbolic sizes
     let (ver, fc, dfc): (u16, u16, u16) = (kani::any(), kani::any(), kani::any());
     let (fdo, fio, aso, tso): (u64, u64, u64, u64) = (kani::any(), kani::any(), kani::any(), kani::any());
     let ubs: u32 = kani::any();
@@ -389,7 +509,7 @@ fn read_info_header(big: bool) {
     d.push(1); d.push(0); put16(&mut d, big, 2);
     d.push(b'a'); d.push(0); put32(&mut d, big, ida); put32(&mut d, big, sza);
     d.push(b'b'); d.push(b'b'); put32(&mut d, big, idb); put32(&mut d, big, szb);
-    let mut cur = std::io::Cursor::new(d);
+    let mut cur = crate::verif_support::LoopCursor::new(d);
     let r = read_info(&mut cur);
     let ok = match &r {
         Ok(info) => {
@@ -409,9 +529,8 @@ fn read_info_header(big: bool) {
     };
     core::mem::forget(r);
     assert!(ok, "[read_info] header / zoom directory / chromosome table differ from what the file encodes");
-    kani::cover!(isbed, "bigBed");
-    let c2 = !isbed;
-    kani::cover!(c2, "bigWig");
+    let c1 = ver != 4;
+    kani::cover!(c1, "a version other than 4 is read back");
     core::mem::forget(cur);
 }
 
@@ -542,20 +661,20 @@ fn c10_zoom_block_bigendian() {
 
 // @harness c03_cached_node_two_queries
 // @props C03 C04 C05
-// @tier thorough
-// @kind stretch
-// @timeout 5400
-// @mem 32
-// @flags c-ffi
-// @functions bbiread::CachedBBIFileRead::blocks_for_cir_tree_node (vacant then occupied cache entry) over std::io::Cursor<Vec<u8>>; read_node, cir_tree_leaf_items, nodes_overlapping
-// @bounds one independently encoded little-endian leaf node with 2 blocks (spans full width); TWO arbitrary queries against the same caching reader: the second answer must not depend on the first
-// @stubs std RandomState::new -> fixed hash keys; SmallVec::push -> within inline capacity (asserted); alloc::fmt::format -> empty
+// @tier quick
+// @kind core
+// @timeout 2400
+// @mem 24
+// @sub src/bbi/bbiread.rs ::: use bytes::{Buf, BytesMut}; ::: use crate::verif_support::bbuf::BytesMut; ||| src/bbi/bbiread.rs ::: use std::collections::hash_map::Entry; ::: use crate::verif_support::hmap::Entry; ||| src/bbi/bbiread.rs ::: use std::collections::{HashMap, VecDeque}; ::: use std::collections::VecDeque; use crate::verif_support::hmap::HashMap;
+// @functions bbiread::CachedBBIFileRead::blocks_for_cir_tree_node (vacant then occupied cache entry) over an in-memory file (LoopCursor); read_node, cir_tree_leaf_items, nodes_overlapping; std HashMap replaced by the association-list model verif_support::hmap, bytes::BytesMut by verif_support::bbuf
+// @bounds one independently encoded little-endian leaf node with 2 blocks (spans full width, chromosomes 0/1); TWO arbitrary queries against the same caching reader: the second answer must not depend on the first
+// @stubs SmallVec::push -> within inline capacity (asserted); alloc::fmt::format -> empty
+// @assumes std's HashMap behaves as a finite map (the model is not solver-checked against hashbrown: its SIMD probing does not finish symbolic execution)
 // @cut the block-data cache (get_block_data) and its 5000-entry reset; non-leaf nodes
 // @witness cover: the first query selects one block and the second the other
 #[kani::proof]
-#[kani::unwind(20)]
+#[kani::unwind(12)]
 #[kani::stub(alloc::fmt::format, crate::verif_support::fake_format)]
-#[kani::stub(std::hash::RandomState::new, crate::verif_support::fixed_random_state)]
 #[kani::stub(SmallVec::push, crate::verif_support::smallvec_push_inline)]
 fn c03_cached_node_two_queries() {
     let (c0, s0, e0): (u32, u32, u32) = (kani::any(), kani::any(), kani::any());
@@ -565,7 +684,7 @@ fn c03_cached_node_two_queries() {
     d.push(1); d.push(0); put16(&mut d, false, 2);
     put_leaf(&mut d, false, c0, s0, c0, e0, 1000, 10);
     put_leaf(&mut d, false, c1, s1, c1, e1, 2000, 20);
-    let mut rd = CachedBBIFileRead::new(std::io::Cursor::new(d));
+    let mut rd = CachedBBIFileRead::new(crate::verif_support::LoopCursor::new(d));
     let hit = |q: u32, qs: u32, qe: u32, c: u32, s: u32, e: u32| key(q, qs) <= key(c, e) && key(q, qe) >= key(c, s);
     // first query
     let (qa, qas, qae): (u32, u32, u32) = (kani::any(), kani::any(), kani::any());
@@ -598,4 +717,65 @@ fn c03_cached_node_two_queries() {
     let c1c = hit(qa, qas, qae, c0, s0, e0) & !hit(qa, qas, qae, c1, s1, e1) & !g0 & g1;
     kani::cover!(c1c, "first query selects block 0 only, second block 1 only");
     core::mem::forget(rd);
+}
+
+fn spin(n: u64) -> u64 {
+    let mut i = 0;
+    while i < n { i += 1; }
+    i
+}
+// @harness probe_nonleaf_iter_constprop
+// @props X
+// @tier off
+// @kind stretch
+// @timeout 600
+// @mem 8
+// @functions probe only
+// @bounds probe
+#[kani::proof]
+#[kani::unwind(60)]
+fn probe_nonleaf_iter_constprop() {
+    let s: u32 = kani::any();
+    let mut d: Vec<u8> = Vec::with_capacity(48);
+    put_nonleaf(&mut d, false, 0, s, 0, 100, 9);
+    put_nonleaf(&mut d, false, 1, 5, 1, 50, 4);
+    let mut it = CirTreeNonLeafItemsIterator { endianness: Endianness::Little, i: 0, count: 2, bytes: d };
+    let a = it.next().unwrap();
+    let r0 = spin(a.node_offset);
+    let b = it.next().unwrap();
+    let r1 = spin(b.node_offset);
+    assert!(r0 == 9 && r1 == 4 && a.start_base == s);
+    core::mem::forget(it);
+}
+
+// @harness probe_blocks_for_node_constprop
+// @props X
+// @tier off
+// @kind stretch
+// @timeout 600
+// @mem 8
+// @fs 16384
+// @sub src/bbi/bbiread.rs ::: use bytes::{Buf, BytesMut}; ::: use crate::verif_support::bbuf::BytesMut;
+// @functions probe only
+// @bounds probe
+#[kani::proof]
+#[kani::unwind(100)]
+#[kani::stub(alloc::fmt::format, crate::verif_support::fake_format)]
+#[kani::stub(alloc::alloc::alloc_zeroed, crate::verif_support::alloc_zeroed_loop)]
+#[kani::stub(SmallVec::push, crate::verif_support::smallvec_push_inline)]
+fn probe_blocks_for_node_constprop() {
+    let s: u32 = 0;
+    let mut d: Vec<u8> = Vec::with_capacity(160);
+    d.push(0); d.push(0); put16(&mut d, false, 2);
+    put_nonleaf(&mut d, false, 0, s, 0, 100, 9);
+    put_nonleaf(&mut d, false, 1, 5, 1, 50, 4);
+    let mut cur = crate::verif_support::LoopCursor::new(d);
+    let r: io::Result<(SmallVec<[u64; 4]>, SmallVec<[Block; 4]>)> = cur.blocks_for_cir_tree_node(Endianness::Little, 0, 0, 10, 20);
+    let (ch, bl) = match r { Ok(d) => d, Err(e) => { core::mem::forget(e); return; } };
+    let n = ch.len();
+    let r0 = spin(n as u64);
+    let c0 = ch[0];
+    let r1 = spin(c0);
+    assert!(r0 == 1 && r1 == 9);
+    core::mem::forget(ch); core::mem::forget(bl); core::mem::forget(cur);
 }
